@@ -92,6 +92,16 @@ CHECKS = {
         "assumptions": E2E_ASSUME + ["garbage collection is suspended during the history stream so that sync.Pool keeps its contents"],
         "trusted_extra": ["verif pool hook (verif_hooks_on.go): records Get/Put/Wrap, poisons released buffers"],
     },
+    "C16": {
+        "module": "Vanguard.Props.C16", "namespace": "Vanguard.C16", "streams": ["pingpong", "e2e"],
+        "partial": "proved per adapter step (per-message flush leaves nothing unflushed for streaming clients; a converted message is on "
+                   "the wire when Write returns; no Read served from the message in hand touches the client's body; the exact reader never "
+                   "exceeds its message); for whole runs the progress predicates Spec.respStepOk/reqStepOk are evaluated on the "
+                   "implementation's progress logs and a lock-step client in the harness flags the first Read that would block for ever - "
+                   "checked, not proved; a real HTTP/2 connection (flow control, net/http's own buffering) is replaced by a recorder whose "
+                   "Flush offsets define what the client has received",
+        "assumptions": E2E_ASSUME + ["unflushed bytes are invisible to the client, flushed bytes are visible at once (recorder model of the connection)"],
+    },
     "C18": {
         "module": "Vanguard.Props.C18", "namespace": "Vanguard.C18", "streams": ["e2e"],
         "partial": "no I/O after return is observed by the harness (vanguard starts no goroutine), not modelled",
